@@ -65,6 +65,14 @@ def check_file(ctx, model, nptdms, data, content, label):
         if d2:
             vio = Violation("TdmsFile.read differs from the encoded content (%s): %s" % (label, d2[0]),
                             dict(kind="file", file=data.hex(), expected_content=content, diffs=d2[:5]))
+    if content is not None and vio is None and len(data) % 3 == 0:
+        # the same bytes behind a stream whose readinto hands over a few bytes per call
+        cap = 1 + len(data) % 7
+        r2, _ = canon.real_read(data, nptdms, stream=lambda d: canon.PartialReadinto(d, cap))
+        d3 = compare_content(content, r2)
+        if d3:
+            vio = Violation("TdmsFile.read through a stream whose readinto delivers at most %d bytes per call differs from the encoded content (%s): %s" % (cap, label, d3[0]),
+                            dict(kind="file-partial-readinto", cap=cap, file=data.hex(), expected_content=content, diffs=d3[:5]))
     return dis, vio
 
 
@@ -156,7 +164,10 @@ def replay(ctx, path):
     with open(path) as f:
         rp = json.load(f)["replay"]
     data = bytes.fromhex(rp["file"])
-    r, _ = canon.real_read(data, ctx.nptdms())
+    if rp.get("kind") == "file-partial-readinto":
+        r, _ = canon.real_read(data, ctx.nptdms(), stream=lambda d_: canon.PartialReadinto(d_, rp["cap"]))
+    else:
+        r, _ = canon.real_read(data, ctx.nptdms())
     d = compare_content(rp["expected_content"], r)
     print("replay: %s" % (d or "property holds on this input"))
     return 1 if d else 0
